@@ -537,6 +537,7 @@ def replace_all(context, alloc_list):
         raise exception.ResourceProviderConcurrentUpdateDetected()
 
 
+@db_api.placement_context_manager.writer
 def delete_all(context, alloc_list):
     consumer_uuids = set(alloc.consumer.uuid for alloc in alloc_list)
     alloc_ids = [alloc.id for alloc in alloc_list]
